@@ -16,6 +16,15 @@ docstring of ``LinearFilterBank.get_truncated_response`` (re-typed here, no libr
     C06.hermitian      real bank: full[(W-b) % W] == conj(full[b]) (1e-12)
     C06.analytic_zero  analytic triangular / Fbank: full[b] == 0 for W/2 < b < W
     C06.finite         every value of the three arrays is finite
+    C06.same_object    (sessions) the statement ranges over every filter index and DFT width of a bank: a bank OBJECT
+                       that has already answered other requests (other widths, in particular pairs whose outputs have
+                       the same length -- (2m, half) vs (m+1, full), (2m-1, half) vs (m, full) -- the other filter,
+                       the same request before) returns exactly what a freshly built bank returns (A-DET); arrays
+                       handed out earlier are neither changed by nor shared with later answers; overwriting a returned
+                       array does not change later answers.  All clauses above are evaluated on the reused object's
+                       answers.  Case kind {"bank", "filt", "ops": [[width, order(, filter)], ...]}: the widths are
+                       visited in that order on one bank object, `order` (a permutation of "tfh") is the order in
+                       which truncated / full / half are requested at that width.
 """
 import time
 import warnings
@@ -78,8 +87,9 @@ def _half_len(W):
     return W // 2 + 1 if W % 2 == 0 else (W + 1) // 2
 
 
-def _check(bank, spec, k, W, thr):
-    """All clauses on one (filter, width).  Returns (failures, nontrivial, info)."""
+def _check(bank, spec, k, W, thr, order="tfh", keep=None):
+    """All clauses on one (filter, width).  Returns (failures, nontrivial, info).  `order`: the order in which the
+    truncated / full / half responses are requested; `keep` (dict) receives what the library returned."""
     kind = spec["bank"]
     compact = kind in ("tri", "fbank")
     real = compact and not spec.get("analytic", False)
@@ -88,9 +98,17 @@ def _check(bank, spec, k, W, thr):
     with warnings.catch_warnings():
         warnings.simplefilter("ignore")
         try:
-            st, tr = bank.get_truncated_response(k, W)
-            full = bank.get_frequency_response(k, W)
-            half = bank.get_frequency_response(k, W, half=True)
+            got = {}
+            for o in order:
+                if o == "t":
+                    got["t"] = bank.get_truncated_response(k, W)
+                elif o == "f":
+                    got["f"] = bank.get_frequency_response(k, W)
+                else:
+                    got["h"] = bank.get_frequency_response(k, W, half=True)
+            (st, tr), full, half = got["t"], got["f"], got["h"]
+            if keep is not None:
+                keep.update(start=st, trunc=tr, full=full, half=half)
         except Exception as e:
             return [("C06.rebuild", f"{type(e).__name__} raised while computing the responses: {e}")], True, info
     tr, full, half = np.asarray(tr), np.asarray(full), np.asarray(half)
@@ -190,6 +208,125 @@ def _check(bank, spec, k, W, thr):
     return out, nontrivial, info
 
 
+def _same(a, b):
+    a, b = np.asarray(a), np.asarray(b)
+    return a.dtype == b.dtype and a.shape == b.shape and bool(np.array_equal(a, b))
+
+
+def _check_session(F, S, spec, k0, ops, thr):
+    """`ops` = [[width, order(, filter)], ...] visited in this order on ONE bank object; see C06.same_object."""
+    bank = _build(F, S, spec)
+    ops = [(int(o[0]), str(o[1]) if len(o) > 1 else "tfh", int(o[2]) if len(o) > 2 else int(k0)) for o in ops]
+    fails, info = [], {"requests": 3 * len(ops)}
+    nontrivial = False
+    history, held = [], []
+
+    def hist():
+        return ", ".join(f"{o}({k},{W})" for W, o, k in history[-5:]) or "nothing"
+
+    def one(W, order, k, tag=""):
+        nonlocal nontrivial
+        keep = {}
+        f, nt, inf = _check(bank, spec, k, W, thr, order=order, keep=keep)
+        nontrivial = nontrivial or nt
+        where = f"[visit #{len(history)}{tag}: filter {k}, width {W}, order {order}, after {hist()}]"
+        for c, m in f:
+            fails.append((c, f"{where} {m}"))
+        if "rebuild_over_thr" in inf:
+            info["rebuild_over_thr"] = max(info.get("rebuild_over_thr", 0.0), inf["rebuild_over_thr"])
+        if keep:
+            fresh = {}
+            try:
+                with warnings.catch_warnings():
+                    warnings.simplefilter("ignore")
+                    fresh["start"], fresh["trunc"] = _build(F, S, spec).get_truncated_response(k, W)
+                    fresh["full"] = _build(F, S, spec).get_frequency_response(k, W)
+                    fresh["half"] = _build(F, S, spec).get_frequency_response(k, W, half=True)
+            except Exception as e:
+                fails.append(("C06.same_object", f"{where} a fresh bank raised {type(e).__name__}: {e}"))
+                fresh = {}
+            for name in ("start", "trunc", "full", "half"):
+                if name in fresh:
+                    a, b = np.asarray(keep[name]), np.asarray(fresh[name])
+                    if name == "start":
+                        ok = int(a) == int(b)
+                    else:
+                        ok = _same(a, b)
+                    if not ok:
+                        if a.shape == b.shape and a.ndim == 1 and a.size:
+                            j = int(np.argmax(np.abs(a - b)))
+                            diff = f"index {j}: {a[j]!r} vs {b[j]!r}"
+                        else:
+                            diff = f"shape/dtype {a.shape}/{a.dtype} vs {b.shape}/{b.dtype}, values {a!r:.50} vs {b!r:.50}"
+                        fails.append(("C06.same_object", f"{where} the {name} response differs from that of a freshly built bank ({diff})"))
+                        break
+            for name in ("trunc", "full", "half"):
+                a = keep[name]
+                if isinstance(a, np.ndarray) and a.ndim == 1:
+                    held.append((f"{name}({k},{W}) #{len(history)}", a, a.copy()))
+        history.append((W, order, k))
+
+    for W, order, k in ops:
+        one(W, order, k)
+        if len(fails) > 8:
+            break
+    for d, a, c in held:
+        if not _same(a, c):
+            fails.append(("C06.same_object", f"the array returned by {d} was changed by a later call"))
+            break
+    clash = None
+    for i in range(len(held)):
+        for j in range(i + 1, len(held)):
+            if np.may_share_memory(held[i][1], held[j][1]) and np.shares_memory(held[i][1], held[j][1]):
+                clash = (held[i][0], held[j][0])
+                break
+        if clash:
+            fails.append(("C06.same_object", f"the arrays returned by {clash[0]} and {clash[1]} share memory"))
+            break
+    if len(fails) <= 8:
+        for d, a, c in held:
+            if a.flags.writeable:
+                a[...] = np.nan if a.dtype.kind in "fc" else 0
+        seen = []
+        for o in ops:
+            if (o[0], o[2]) not in [(x[0], x[2]) for x in seen]:
+                seen.append(o)
+        for W, order, k in seen[:8]:
+            one(W, order, k, tag=" (after the returned arrays were overwritten)")
+    seen, out = set(), []
+    for c, m in fails:
+        if c not in seen:
+            seen.add(c)
+            out.append((c, m))
+    return out, nontrivial, info
+
+
+_ORDERS = ["tfh", "thf", "fth", "fht", "htf", "hft"]
+
+
+def _session_ops(rng, ms, k, k2=None, tail=6):
+    """Widths 2m, m+1 (the half response of the first is as long as the full one of the second) and 2m-1, m, in both
+    directions, with repeats and seeded request orders; a second filter in between; earlier visits again at the end."""
+    ops = []
+    for i, m in enumerate(ms):
+        m = int(m)
+        seq = [2 * m, m + 1, 2 * m] + ([2 * m - 1, m, 2 * m - 1] if m >= 3 else [])
+        if i % 2:
+            seq = [m + 1, 2 * m, m + 1] + ([m, 2 * m - 1, m] if m >= 3 else [])
+        for j, W in enumerate(seq):
+            # half first on the long width, full first on the short one (and the seeded rest)
+            order = ("hft" if W >= 2 * m - 1 else "fth") if j < 2 else _ORDERS[int(rng.integers(6))]
+            ops.append([W, order, k])
+            if k2 is not None and k2 != k and j == 0:
+                ops.append([W, _ORDERS[int(rng.integers(6))], k2])
+    distinct = []
+    for o in ops:
+        if [o[0], o[2]] not in [[x[0], x[2]] for x in distinct]:
+            distinct.append(o)
+    ops += [[distinct[i][0], _ORDERS[int(rng.integers(6))], distinct[i][2]] for i in rng.permutation(len(distinct))[:tail]]
+    return [o for o in ops if o[0] >= 2]
+
+
 def replay(case):
     F, S, config = _mods()
     thr = float(config.EFFECTIVE_SUPPORT_THRESHOLD)
@@ -197,6 +334,11 @@ def replay(case):
         bank = _build(F, S, case["bank"])
     except Exception as e:
         return False, f"C06.rebuild: constructor raised {type(e).__name__}: {e}"
+    if case.get("ops") is not None:
+        fails, nontrivial, info = _check_session(F, S, case["bank"], int(case["filt"]), case["ops"], thr)
+        if fails:
+            return False, "; ".join(f"{c}: {m}" for c, m in fails)
+        return True, f"holds ({'non-trivial' if nontrivial else 'empty filter at these widths'}; {info})"
     fails, nontrivial, info = _check(bank, case["bank"], int(case["filt"]), int(case["width"]), thr)
     if fails:
         return False, "; ".join(f"{c}: {m}" for c, m in fails)
@@ -336,6 +478,32 @@ def run(tier, seed):
     for n, o in ((5, 4), (3, 6), (8, 3)):  # gammatone supports between one and two periods
         core.append({"bank": "gamma", "scale": {"name": "linear", "low_hz": 0.0, "slope_hz": 1.0}, "num_filts": n, "rate": 8000, "low_hz": 0.0, "high_hz": None, "order": o, "max_centered": False, "erb": False, "l2": False})
     specs = core + [grid[i] for i in order]
+    # phase 0: sessions -- one bank object answers many requests in varied orders (see C06.same_object)
+    t_s = time.time()
+    sess_budget = 5 if quick else 60
+    n_sess = n_sess_visits = 0
+    for i_spec, spec in enumerate(specs):
+        if time.time() - t_s > sess_budget or col.too_many_failures():
+            break
+        if bank_of(spec) is None:
+            continue
+        n = spec["num_filts"]
+        k = int(rng.integers(n))
+        k2 = int(rng.integers(n)) if n > 1 else None
+        ms = [(256, 64, 128, 32)[i_spec % 4], int(rng.integers(3, 200)), int(rng.integers(2, 24))]
+        ops = _session_ops(rng, ms, k, k2=k2)
+        case = {"bank": spec, "filt": k, "ops": ops}
+        fails, nontrivial, info = _check_session(F, S, spec, k, ops, thr)
+        n_sess += 1
+        n_sess_visits += len(ops)
+        col.case(case, nontrivial=nontrivial, sample=case if n_sess == 1 else None)
+        for clause, msg in fails:
+            key = (clause, spec["bank"])
+            dup[key] = dup.get(key, 0) + 1
+            if dup[key] <= 2:
+                col.fail(clause, case, msg)
+        if "rebuild_over_thr" in info:
+            worst[spec["bank"]] = max(worst.get(spec["bank"], 0.0), info["rebuild_over_thr"])
     # phase 1: small widths (2..64) on as many banks as the budget allows; phase 2: big widths
     t0 = time.time()
     small_budget = 30 if quick else 330
@@ -378,9 +546,10 @@ def run(tier, seed):
         + ", ".join(f"{k[8:]} {v[1]}/{v[0]}" for k, v in sorted(counts.items()) if k.startswith("compact_"))
         + " (the rest differ by <= 4 ulp: scalar `** 0.5` vs array `** 0.5`)"
     )
+    col.note(f"sessions (one bank object, many widths / request orders, each answer also compared with a fresh bank): {n_sess} with {n_sess_visits} (filter, width) visits in {sess_budget} s")
     col.note(f"banks visited: {counts['banks']} with widths 2..64, {n_big} of them also with {BIG_WIDTHS}; half=True prefix not bit-identical in {counts['inexact_half']} cases")
     return col.result(
-        rule="one case per (bank configuration, filter index, DFT width); all clauses are checked on each; non-trivial when the truncated response has at least one non-zero value at that width",
+        rule="one case per (bank configuration, filter index, DFT width); all clauses are checked on each; non-trivial when the truncated response has at least one non-zero value at that width; plus one case per session (bank configuration, filter, list of (width, request order[, filter]) visited on one bank object)",
         bound=(
             f"BOUNDED ({tier}): grid 4 banks x 4 scales x rates {'{8k,16k}' if quick else '{8k,16k,44.1k}'} x num_filts {'{1,2,5,11}' if quick else '{1,2,5,11,40}'} x 3 ranges "
             f"(incl. low_hz = 0 -> wrap below 0) x flags ({len(grid)} configurations, visited in seeded class-interleaved order within the time budget, every 5th "
